@@ -211,16 +211,20 @@ def run(ctx):
     from hailtop.aiotools.weighted_semaphore import WeightedSemaphore
 
     wd = tlc.prepare_dir(ctx.build / "tlc", ["sem"])
-    configs = [(("t1", "t2", "t3"), 2, 2)]
+    # (tasks, max weight, capacity, replay the whole graph on the real class?)  The graphs for 4 tasks have
+    # 1.3-1.8 million states: they are model-checked; the code is bound on the 3-task graphs and by B2 below.
+    T3, T4 = ("t1", "t2", "t3"), ("t1", "t2", "t3", "t4")
+    configs = [(T3, 2, 2, True)]
     if not ctx.quick:
-        configs += [(("t1", "t2", "t3"), 3, 3), (("t1", "t2", "t3", "t4"), 2, 2), (("t1", "t2", "t3", "t4"), 2, 3)]
+        configs += [(T3, 3, 3, True), (T4, 2, 2, False), (T4, 2, 3, False)]
     total_edges = 0
     nonconforming = False
-    for n, (tasks, maxw, cap) in enumerate(configs):
+    workers = min(ctx.workers, 4) if ctx.quick else ctx.workers
+    for n, (tasks, maxw, cap, replay) in enumerate(configs):
         consts = _consts(tasks, maxw, cap)
         # ---- (1) the properties on the spec ---------------------------------------------------------------
         (wd / f"MC{n}.cfg").write_text(tlc.mk_cfg(constants=consts, invariants=INVS))
-        res = tlc.run(wd, "WSem", f"MC{n}.cfg", workers=ctx.workers, coverage=True, dump=f"g{n}")
+        res = tlc.run(wd, "WSem", f"MC{n}.cfg", workers=workers, coverage=True, dump=f"g{n}" if replay else None)
         ctx.add_tlc(res, f"exhaustive WSem tasks={len(tasks)} weights=1..{maxw} capacity={cap} CancelSafe=TRUE")
         ctx.require_covered(res, ACTIONS, "WSem")
         for v in res.violations:
@@ -231,7 +235,7 @@ def run(ctx):
             # liveness on the spec under fairness (quick: one weight class only, the graph is 8 times smaller)
             lconsts = dict(consts, Weights=_set([cap])) if ctx.quick else consts
             (wd / "Live.cfg").write_text(tlc.mk_cfg(spec="FairSpec", constants=lconsts, properties=["WS_Live", "WS_EventuallyQuiescent"]))
-            lres = tlc.run(wd, "WSem", "Live.cfg", workers=ctx.workers)
+            lres = tlc.run(wd, "WSem", "Live.cfg", workers=workers)
             ctx.add_tlc(lres, f"liveness WS_Live, WS_EventuallyQuiescent under WF(Step), WF(Finish), weights {lconsts['Weights']}")
             for v in lres.violations:
                 ctx.violation(f"spec-liveness:{v.name}", {"config": consts, "trace": [(h, s) for h, s in v.trace]})
@@ -246,6 +250,8 @@ def run(ctx):
                     ctx.sample({"kind": "tlc-counterexample-CancelSafe=FALSE", "invariant": inv,
                                 "history": [h for h, _ in fres.violations[0].trace[1:]]})
 
+        if not replay:
+            continue
         # ---- (2) B1: every edge of the graph on the real class ------------------------------------------------
         g = tlc.parse_dot(wd / f"g{n}.dot")
         srcs = {}
@@ -274,7 +280,7 @@ def run(ctx):
         if mism:
             break
     if nonconforming:
-        tasks, maxw, cap = configs[0]
+        tasks, maxw, cap, _ = configs[0]
         _confirm_on_real(ctx, wd, tasks, maxw, cap, WeightedSemaphore)
 
     # ---- (3) B2: random executions of the real class, validated by TLC -----------------------------------------
@@ -315,7 +321,7 @@ def run(ctx):
     tf.write_text("\n".join(lines) + "\n")
     consts = _consts(tasks, cap, cap)
     (wd / "Trace.cfg").write_text(tlc.mk_cfg(spec="TraceSpec", constants=consts, invariants=INVS, deadlock=True))
-    tres = tlc.run(wd, "WSemTrace", "Trace.cfg", workers=ctx.workers, env={"TRACE_FILE": tf})
+    tres = tlc.run(wd, "WSemTrace", "Trace.cfg", workers=workers, env={"TRACE_FILE": tf})
     ctx.add_tlc(tres, f"trace validation of {ntr} executions of the real class ({ntasks} tasks, capacity {cap})")
     nev = sum(len(json.loads(l)["ev"]) for l in lines)
     if min(nact.values()) == 0:
